@@ -461,6 +461,8 @@ class SinkData(Model):
             if self.axes[0] == "col":
                 return Sym(("column", idx))
             return Sym(("not-a-column", self.axes, idx))
+        if isinstance(idx, tuple) and len(idx) > len(self.axes):
+            raise Raised("IndexError", None, "too many indices for array: array is %d-dimensional, but %d were indexed" % (len(self.axes), len(idx)))
         raise Unsupported("sink table indexed with %r" % (idx,))
 
     def __iter__(self):
